@@ -142,7 +142,7 @@ def s_case(draw, max_n=200):
     c = draw(s_run(max_n))
     if draw(st.integers(0, 2)) == 0:
         c['cont'] = draw(s_run(max_n // 2))
-    c['stop'] = draw(st.floats(0.05, 1.5)) if draw(st.integers(0, 4)) == 0 else None
+    c['stop'] = draw(st.floats(0.05, 1.5)) if draw(st.integers(0, 4 if not c.get('cont') else 1)) == 0 else None
     return c
 
 
